@@ -7,7 +7,7 @@ CONSTANTS
   Roa <- GenRoa
   AspaDefs <- NoAspa
   ParentOf <- GenChain
-  Ops = {"res", "suspend", "remove", "roa", "roll", "delete", "refresh"}
+  Ops = {"res", "suspend", "remove", "roa", "roll", "delete", "refresh", "restart"}
   Depth = 30
   MaxApiStreak = 2
   MaxDestr = 1
